@@ -83,7 +83,11 @@ pub fn crypto_secretbox_open_detached(
 ) -> Result<(), Error> {
     let c_len = ciphertext.len();
     message[..c_len].copy_from_slice(ciphertext);
-    crypto_secretbox_open_detached_inplace(message, mac, nonce, key)
+    crypto_secretbox_open_detached_inplace(message, mac, nonce, key).map_err(|err| {
+        // don't leave a copy of the rejected ciphertext in the caller's buffer
+        message[..c_len].fill(0);
+        err
+    })
 }
 
 /// Encrypts `message` with `nonce` and `key`.
